@@ -765,7 +765,7 @@ fn gen_sheet(rng: &mut Rng, env: &EnvD) -> Vec<LCell> {
                 let cands = rk_candidates(bits);
                 let enc = match rng.below(8) {
                     0 => Enc::N,
-                    1 if env.fmts[xf as usize] == 'o' => Enc::F { wide: false, blank3: false, rgce: xlsw::rgce_int(rng.next() as u16), between: vec![] },
+                    1 => Enc::F { wide: false, blank3: false, rgce: xlsw::rgce_int(rng.next() as u16), between: vec![] },
                     2 => Enc::K(rng.next() as u32), // usually not a valid choice: the encoder must fall back
                     _ if !cands.is_empty() => Enc::K(*rng.pick(&cands)),
                     _ => Enc::N,
@@ -817,8 +817,7 @@ fn oracle_sheet(env: &EnvD, cells: &[LCell]) -> String {
                     Enc::K(w) if num_bits(rk_oracle(*w)) == *bits => rk_oracle(*w),
                     _ => Num::F(*bits),
                 };
-                let is_formula = matches!(enc, Enc::F { .. }) && (*bits >> 48) != 0xFFFF;
-                if fmt == 'o' || is_formula {
+                if fmt == 'o' {
                     n.show()
                 } else {
                     format!("D{:016x}/{fmt}/{}", num_bits(n), env.is1904 as u8)
@@ -1322,8 +1321,7 @@ fn main() {
          random container layout, read by Xls::new + worksheet_range, compared with Lean `dec` and with the bounding-box/value oracle. \
          M: Rust-encoded substreams with physical oddities (STRING without FORMULA, CONTINUE, MERGECELLS, 1-cell MULRK, LABELSST beyond the table) \
          and one structural fault (impl vs model only). Non-trivial = a file with >= 2 cells, a record with an oracle, any K/M case; distinct by input text. \
-         Generator restrictions: FORMULA token strings are always `PtgInt` (the token decoder is C14's); strings never start with a BOM-like unit; \
-         numbers cached in a FORMULA carry a non-date XF.",
+         Generator restrictions: FORMULA token strings are always `PtgInt` (the token decoder is C14's); strings never start with a BOM-like unit.",
     );
     let mut shrink_budget = 10u32;
     if let Some(inp) = &args.replay {
